@@ -1112,5 +1112,407 @@ theorem rt_main (st : Store) : ∀ (f d : Nat) (id : NodeId) (j : Json),
         rfl
 
 
+/-! ## the normal form of a node is written like the node -/
+
+section
+variable {st : Store} {rec : MRec}
+
+theorem mMany_norm (k : String) : ∀ (c : Option (List NodeId)), mMany st rec k (normList c) = mMany st rec k c
+  | none => rfl
+  | some [] => rfl
+  | some (_ :: _) => rfl
+
+theorem sortKV_cons_ne_nil {α} (e : String × α) (es : List (String × α)) : sortKV (e :: es) ≠ [] := by
+  intro h0
+  have hp := sortKV_perm (e :: es)
+  rw [h0] at hp
+  exact absurd hp.symm.eq_nil (by simp)
+
+theorem mKeyed_norm (k : String) : ∀ (c : Option (List (String × NodeId))),
+    mKeyed st rec k (normMap c) = mKeyed st rec k c
+  | none => rfl
+  | some [] => rfl
+  | some (e :: es) => by
+    show mKeyed st rec k (some (sortKV (e :: es))) = _
+    cases h : sortKV (e :: es) with
+    | nil => exact absurd h (sortKV_cons_ne_nil e es)
+    | cons x xs =>
+      simp only [mKeyed, mSchemaMap]
+      rw [← h, sortKV_idem]
+
+theorem orderedKeys_nil {α} (ps : List (String × α)) : orderedKeys ps [] = sortStrings (ps.map (·.1)) := by
+  unfold orderedKeys
+  simp only [List.filter_nil, List.nil_append]
+  congr 1
+  exact List.filter_eq_self.2 fun _ _ => rfl
+
+theorem keys_propEntries (ps : List (String × NodeId)) (order : List String) :
+    (propEntries ps order).map (·.1) = orderedKeys ps order :=
+  filterMap_lookup_keys _ fun _ hk => orderedKeys_isSome hk
+
+theorem lookup_filterMap_lookup {α} {ps : List (String × α)} : ∀ (ks : List String),
+    (∀ k, k ∈ ks → (Json.lookup k ps).isSome = true) → ∀ k, k ∈ ks →
+    Json.lookup k (ks.filterMap fun k => (Json.lookup k ps).map fun v => (k, v)) = Json.lookup k ps
+  | [], _, _, hk => by cases hk
+  | k0 :: ks, h, k, hk => by
+    have h0 := h k0 List.mem_cons_self
+    cases hv : Json.lookup k0 ps with
+    | none => rw [hv] at h0; cases h0
+    | some v =>
+      simp only [List.filterMap_cons, hv, Option.map_some, Json.lookup_cons]
+      by_cases hkk : k0 = k
+      · rw [if_pos hkk, ← hkk, hv]
+      · rw [if_neg hkk]
+        rcases List.mem_cons.1 hk with rfl | hk'
+        · exact absurd rfl hkk
+        · exact lookup_filterMap_lookup ks (fun k' hk' => h k' (List.mem_cons_of_mem _ hk')) k hk'
+
+theorem filterMap_congr_mem {α β} {f g : α → Option β} : ∀ (l : List α), (∀ a, a ∈ l → f a = g a) →
+    l.filterMap f = l.filterMap g
+  | [], _ => rfl
+  | a :: l, h => by
+    simp only [List.filterMap_cons, h a List.mem_cons_self,
+      filterMap_congr_mem l fun b hb => h b (List.mem_cons_of_mem _ hb)]
+
+theorem propEntries_norm (ps : List (String × NodeId)) (order : List String)
+    (hord : strsSortedB (orderedKeys ps order) = true) :
+    propEntries (propEntries ps order) [] = propEntries ps order := by
+  have hk : orderedKeys (propEntries ps order) [] = orderedKeys ps order := by
+    rw [orderedKeys_nil, keys_propEntries, sortStrings_of_sortedB _ hord]
+  show (orderedKeys (propEntries ps order) []).filterMap _ = _
+  rw [hk]
+  show _ = (orderedKeys ps order).filterMap _
+  refine filterMap_congr_mem _ fun k hk' => ?_
+  have : Json.lookup k (propEntries ps order) = Json.lookup k ps :=
+    lookup_filterMap_lookup _ (fun _ h => orderedKeys_isSome h) k hk'
+  rw [this]
+
+theorem mPropsField_norm (order : List String) : ∀ (c : Option (List (String × NodeId))),
+    strsSortedB (orderedKeys (c.getD []) order) = true →
+    mPropsField st rec (normProps c order) [] = mPropsField st rec c order
+  | none, _ => rfl
+  | some ps, hord => by
+    show mPropsField st rec (some (propEntries ps order)) [] = _
+    simp only [mPropsField]
+    have e : ∀ l o, mProperties st rec l o =
+        Res.bind (mSchemaEntries st rec (propEntries l o)) fun es => .ok (.obj es) := fun _ _ => rfl
+    rw [e, e, propEntries_norm ps order hord]
+
+end
+
+theorem mRequired_norm (n : Node) : mRequired (normNode n) = mRequired n := by
+  unfold mRequired
+  show (match normReq n.required with | some (x :: xs) => [("required", strs (x :: xs))] | _ => []) = _
+  cases n.required with
+  | none => rfl
+  | some l =>
+    cases l with
+    | nil => rfl
+    | cons x xs => rfl
+
+theorem mem_normExtra {ex : Option (List (String × Json))} {e : String × Json}
+    (he : e ∈ (normExtra ex).getD []) : e ∈ ex.getD [] := by
+  cases ex with
+  | none => exact he
+  | some l =>
+    cases l with
+    | nil => exact he
+    | cons a as => exact (sortKV_perm _).mem_iff.1 he
+
+theorem mExtra_norm (n : Node) (hsj : ∀ e, e ∈ n.extra.getD [] → sortJson e.2 = e.2) :
+    mExtra (normNode n) = mExtra n := by
+  unfold mExtra
+  show sortKV (((normExtra n.extra).getD []).map fun (k, v) => (k, sortJson v)) = _
+  rw [map_sortJson_id _ (fun e he => hsj e (mem_normExtra he)), map_sortJson_id _ hsj]
+  cases n.extra with
+  | none => rfl
+  | some l =>
+    cases l with
+    | nil => rfl
+    | cons a as => exact sortKV_idem _
+
+theorem mMembers_norm (n : Node) (hsj : ∀ e, e ∈ n.extra.getD [] → sortJson e.2 = e.2) (props : List (String × Json))
+    (deps : Option Json)
+    (items defs definitions prefixItems additionalItems contains unevaluatedItems patternProperties additionalProperties propertyNames unevaluatedProperties allOf anyOf oneOf not_ if_ then_ else_ dependentSchemas contentSchema : List (String × Json)) :
+    mMembers (normNode n) props deps items defs definitions prefixItems additionalItems contains unevaluatedItems patternProperties additionalProperties propertyNames unevaluatedProperties allOf anyOf oneOf not_ if_ then_ else_ dependentSchemas contentSchema =
+    mMembers n props deps items defs definitions prefixItems additionalItems contains unevaluatedItems patternProperties additionalProperties propertyNames unevaluatedProperties allOf anyOf oneOf not_ if_ then_ else_ dependentSchemas contentSchema := by
+  unfold mMembers
+  rw [mRequired_norm, mExtra_norm n hsj]
+  rfl
+
+/-- the normal form of a node marshals to what the node marshals to (same store, same children) -/
+theorem marshalNode_norm (st : Store) (rec : MRec) (n : Node) (hok : nodeOK n = true) (hord : nodeOrd n = true) :
+    marshalNode st rec (normNode n) = marshalNode st rec n := by
+  obtain ⟨-, -, -, -, hsj, -⟩ := nodeOK_unpack hok
+  unfold marshalNode
+  show marshalParts (normNode n)
+    (mPropsField st rec (normProps n.properties (n.propertyOrder.getD [])) [])
+    (mDeps st rec n.dependencySchemas n.dependencyStrings)
+    (mItemsField st rec n.items n.itemsArray)
+    (mKeyed st rec "$defs" (normMap n.defs))
+    (mKeyed st rec "definitions" (normMap n.definitions))
+    (mMany st rec "prefixItems" (normList n.prefixItems))
+    (mOne st rec "additionalItems" n.additionalItems)
+    (mOne st rec "contains" n.contains)
+    (mOne st rec "unevaluatedItems" n.unevaluatedItems)
+    (mKeyed st rec "patternProperties" (normMap n.patternProperties))
+    (mOne st rec "additionalProperties" n.additionalProperties)
+    (mOne st rec "propertyNames" n.propertyNames)
+    (mOne st rec "unevaluatedProperties" n.unevaluatedProperties)
+    (mMany st rec "allOf" (normList n.allOf))
+    (mManyNN st rec "anyOf" n.anyOf)
+    (mManyNN st rec "oneOf" n.oneOf)
+    (mOne st rec "not" n.not)
+    (mOne st rec "if" n.if_)
+    (mOne st rec "then" n.then_)
+    (mOne st rec "else" n.else_)
+    (mKeyed st rec "dependentSchemas" (normMap n.dependentSchemas))
+    (mOne st rec "contentSchema" n.contentSchema) = _
+  rw [mPropsField_norm _ _ hord, mKeyed_norm, mKeyed_norm, mKeyed_norm, mKeyed_norm, mMany_norm, mMany_norm]
+  unfold marshalParts
+  simp only [mMembers_norm n hsj]
+
+theorem normMap_isSome {c : Option (List (String × NodeId))} (h : (normMap c).isSome = true) : c.isSome = true := by
+  cases c with
+  | none => exact h
+  | some _ => rfl
+
+theorem marshalChecksOk_norm {n : Node} (h : marshalChecksOk n = true) : marshalChecksOk (normNode n) = true := by
+  unfold marshalChecksOk at h ⊢
+  rw [basicChecksOk_eq] at h ⊢
+  simp only [Bool.and_eq_true, Bool.not_eq_true'] at h ⊢
+  obtain ⟨⟨⟨⟨h1, h2⟩, h3⟩, _⟩, h5⟩ := h
+  refine ⟨⟨⟨⟨h1, ?_⟩, h3⟩, rfl⟩, h5⟩
+  show ((normMap n.defs).isSome && (normMap n.definitions).isSome) = false
+  cases hb : ((normMap n.defs).isSome && (normMap n.definitions).isSome) with
+  | false => rfl
+  | true =>
+    rw [Bool.and_eq_true] at hb
+    rw [normMap_isSome hb.1, normMap_isSome hb.2] at h2
+    cases h2
+
+theorem extraAny_norm {n : Node} (h : ((n.extra.getD []).any fun e => structNames.contains e.1) = false) :
+    (((normNode n).extra.getD []).any fun e => structNames.contains e.1) = false := by
+  cases hb : (((normNode n).extra.getD []).any fun e => structNames.contains e.1) with
+  | false => rfl
+  | true =>
+    obtain ⟨e, he, hc⟩ := List.any_eq_true.1 hb
+    have : ((n.extra.getD []).any fun e => structNames.contains e.1) = true :=
+      List.any_eq_true.2 ⟨e, mem_normExtra he, hc⟩
+    rw [h] at this
+    cases this
+
+/-! ## the children of the normal form are children of the node -/
+
+theorem ListRel.mem_left {α β} {R : α → β → Prop} : ∀ {l l'}, ListRel R l l' → ∀ {a}, a ∈ l → ∃ b, b ∈ l' ∧ R a b
+  | _, _, .nil, _, ha => by cases ha
+  | _, _, .cons h1 h2, a, ha => by
+    rcases List.mem_cons.1 ha with rfl | ha
+    · exact ⟨_, List.mem_cons_self, h1⟩
+    · obtain ⟨b, hb, hr⟩ := ListRel.mem_left h2 ha
+      exact ⟨b, List.mem_cons_of_mem _ hb, hr⟩
+
+/-- every id of the first field is an id of the second -/
+def IdsSub (f' f : ChildField) : Prop := ∀ x, x ∈ f'.ids → x ∈ f.ids
+
+theorem idsSub_refl (f : ChildField) : IdsSub f f := fun _ h => h
+
+theorem idsSub_normMap (k : String) (c : Option (List (String × NodeId))) :
+    IdsSub (.keyed k (normMap c)) (.keyed k c) := by
+  intro x hx
+  cases c with
+  | none => exact hx
+  | some l =>
+    cases l with
+    | nil => exact hx
+    | cons a as => exact ((sortKV_perm _).map _).mem_iff.1 hx
+
+theorem idsSub_normList (k : String) (c : Option (List NodeId)) : IdsSub (.many k (normList c)) (.many k c) := by
+  intro x hx
+  cases c with
+  | none => exact hx
+  | some l =>
+    cases l with
+    | nil => exact hx
+    | cons a as => exact hx
+
+theorem idsSub_normProps (k : String) (c : Option (List (String × NodeId))) (order : List String) :
+    IdsSub (.keyed k (normProps c order)) (.keyed k c) := by
+  intro x hx
+  cases c with
+  | none => exact hx
+  | some l =>
+    obtain ⟨e, he, rfl⟩ := List.mem_map.1 hx
+    exact List.mem_map.2 ⟨e, mem_propEntries he, rfl⟩
+
+theorem normNode_childFields_sub (n : Node) : ListRel IdsSub (normNode n).childFields n.childFields := by
+  unfold Node.childFields
+  exact .cons (idsSub_normMap _ _) (.cons (idsSub_refl _) (.cons (idsSub_refl _) (.cons (idsSub_normList _ _)
+    (.cons (idsSub_refl _) (.cons (idsSub_refl _) (.cons (idsSub_refl _) (.cons (idsSub_normMap _ _)
+    (.cons (idsSub_refl _) (.cons (idsSub_normMap _ _) (.cons (idsSub_refl _) (.cons (idsSub_refl _)
+    (.cons (idsSub_refl _) (.cons (idsSub_refl _) (.cons (idsSub_refl _) (.cons (idsSub_refl _)
+    (.cons (idsSub_normMap _ _) (.cons (idsSub_normList _ _) (.cons (idsSub_normProps _ _ _)
+    (.cons (idsSub_refl _) (.cons (idsSub_refl _) (.cons (idsSub_refl _) (.cons (idsSub_refl _) .nil))))))))))))))))))))))
+
+theorem normNode_ids_sub {n : Node} {f' : ChildField} (hf' : f' ∈ (normNode n).childFields) {x : NodeId}
+    (hx : x ∈ f'.ids) : x ∈ n.children := by
+  obtain ⟨f, hf, hs⟩ := ListRel.mem_left (normNode_childFields_sub n) hf'
+  exact mem_children_iff.2 ⟨f, hf, hs x hx⟩
+
+/-! ## adding a fact about the left ids to a relation -/
+
+theorem ListRel.imp_mem {α β} {R S : α → β → Prop} : ∀ {l l'}, ListRel R l l' →
+    (∀ a, a ∈ l → ∀ b, R a b → S a b) → ListRel S l l'
+  | _, _, .nil, _ => .nil
+  | _, _, .cons h1 h2, h => .cons (h _ List.mem_cons_self _ h1)
+      (ListRel.imp_mem h2 fun a ha b hr => h a (List.mem_cons_of_mem _ ha) b hr)
+
+theorem FieldRel.and_left {R : NodeId → NodeId → Prop} {P : NodeId → Prop} : ∀ {f f'}, FieldRel R f f' →
+    (∀ x, x ∈ f.ids → P x) → FieldRel (fun x y => P x ∧ R x y) f f'
+  | _, _, .one (c := none) (c' := none) _, _ => .one trivial
+  | _, _, .one (c := some x) (c' := some _) h, hp => .one ⟨hp x (by simp [ChildField.ids]), h⟩
+  | _, _, .one (c := none) (c' := some _) h, _ => h.elim
+  | _, _, .one (c := some _) (c' := none) h, _ => h.elim
+  | _, _, .many (cs := none) (cs' := none) _, _ => .many trivial
+  | _, _, .many (cs := some _) (cs' := some _) h, hp =>
+    .many (ListRel.imp_mem (R := R) h fun a ha _ hr => ⟨hp a ha, hr⟩)
+  | _, _, .many (cs := none) (cs' := some _) h, _ => h.elim
+  | _, _, .many (cs := some _) (cs' := none) h, _ => h.elim
+  | _, _, .keyed (cs := none) (cs' := none) _, _ => .keyed trivial
+  | _, _, .keyed (cs := some l) (cs' := some _) h, hp =>
+    .keyed (ListRel.imp_mem (R := KeyRel R) h fun a ha _ hr =>
+      ⟨hr.1, hp a.2 (List.mem_map.2 ⟨a, ha, rfl⟩), hr.2⟩)
+  | _, _, .keyed (cs := none) (cs' := some _) h, _ => h.elim
+  | _, _, .keyed (cs := some _) (cs' := none) h, _ => h.elim
+
+/-! ## equal trees marshal identically -/
+
+/-- the well-formedness the second MarshalJSON needs: `nodeOK` and "properties" written in ascending order -/
+def nodeWF (n : Node) : Bool := nodeOK n && nodeOrd n
+
+theorem TreeEq.get_right {st st' : Store} : ∀ {d : Nat} {a b : NodeId}, TreeEq st st' d a b → ∃ n', st'.get? b = some n'
+  | 0, _, _, h => h.elim
+  | _ + 1, _, _, ⟨_, n', _, hb, _⟩ => ⟨n', hb⟩
+
+theorem TreeEq.marshal_eq {st st' : Store} : ∀ (f d d' : Nat) (a b : NodeId),
+    treeAll nodeWF st d a = true → TreeEq st st' d' a b → marshalFuel st f a = marshalFuel st' f b := by
+  intro f
+  induction f with
+  | zero => intro _ _ _ _ _ _; rfl
+  | succ f ih =>
+    intro d d' a b hd he
+    cases d with
+    | zero => cases hd
+    | succ d =>
+    cases d' with
+    | zero => exact he.elim
+    | succ d' =>
+      obtain ⟨n, hn, hwf, hcd⟩ := treeAll_succ hd
+      obtain ⟨n0, n', ha, hb, fs', hrel, rfl⟩ := he
+      have hnn : n0 = n := by
+        rw [hn] at ha
+        cases ha
+        rfl
+      subst hnn
+      simp only [nodeWF, Bool.and_eq_true] at hwf
+      obtain ⟨hok, hord⟩ := hwf
+      have hchk : marshalChecksOk n0 = true := by
+        simp only [nodeOK, Bool.and_eq_true] at hok
+        exact hok.1.1.1.1.1.1.1.1.1.1.1.1.1.1.1.1.1.1
+      have hany : ((n0.extra.getD []).any fun e => structNames.contains e.1) = false := by
+        simp only [nodeOK, Bool.and_eq_true, Bool.not_eq_true'] at hok
+        exact hok.1.1.1.1.1.1.1.1.1.1.1.1.1.1.1.1.1.2
+      show marshalStep st (marshalFuel st f) a = marshalStep st' (marshalFuel st' f) b
+      rw [marshalStep_eq, marshalStep_eq, hn, hb]
+      dsimp only
+      have hchk' : marshalChecksOk (setChildFields (normNode n0) fs') = true := by
+        rw [marshalChecksOk_congr hrel]
+        exact marshalChecksOk_norm hchk
+      have hany' : (((setChildFields (normNode n0) fs').extra.getD []).any fun e => structNames.contains e.1) = false :=
+        extraAny_norm hany
+      rw [if_neg (by rw [hchk]; decide), if_neg (by rw [hany]; decide), if_neg (by rw [hchk']; decide),
+        if_neg (by rw [hany']; decide)]
+      have hrel' : ListRel (FieldRel fun x y => treeAll nodeWF st d x = true ∧ TreeEq st st' d' x y)
+          (normNode n0).childFields fs' :=
+        ListRel.imp_mem hrel fun f hf f' hr => FieldRel.and_left hr fun x hx => hcd x (normNode_ids_sub hf hx)
+      have hm : ∀ x y, (treeAll nodeWF st d x = true ∧ TreeEq st st' d' x y) →
+          mSchema st (marshalFuel st f) x = mSchema st' (marshalFuel st' f) y := by
+        rintro x y ⟨hx, hxy⟩
+        obtain ⟨m, hm⟩ := treeAll_get hx
+        obtain ⟨m', hm'⟩ := hxy.get_right
+        unfold mSchema
+        rw [hm, hm']
+        exact ih d d' x y hx hxy
+      rw [← marshalNode_congr hm hrel', marshalNode_norm st _ n0 hok hord]
+
+/-! ## marshalFuel is stable from the depth of a full tree on -/
+
+theorem marshalFuel_stable_full {st : Store} :
+    ∀ (d : Nat) (a : NodeId), Full st d a → ∀ f f', d ≤ f → d ≤ f' → marshalFuel st f a = marshalFuel st f' a := by
+  intro d
+  induction d with
+  | zero => intro a hg; exact hg.elim
+  | succ d ih =>
+    intro a hg f f' hf hf'
+    obtain ⟨f0, rfl⟩ : ∃ f0, f = f0 + 1 := ⟨f - 1, by omega⟩
+    obtain ⟨f0', rfl⟩ : ∃ f0, f' = f0 + 1 := ⟨f' - 1, by omega⟩
+    show marshalStep st _ a = marshalStep st _ a
+    rw [marshalStep_eq, marshalStep_eq]
+    obtain ⟨n, hn, hch⟩ := hg
+    rw [hn]
+    dsimp only
+    have hm : ∀ x y, (y = x ∧ Full st d x) →
+        mSchema st (marshalFuel st f0) x = mSchema st (marshalFuel st f0') y := by
+      rintro x y ⟨rfl, hx⟩
+      unfold mSchema
+      cases st.get? y with
+      | none => rfl
+      | some _ => exact ih y hx f0 f0' (by omega) (by omega)
+    have hrel : ListRel (FieldRel fun x y => y = x ∧ Full st d x) n.childFields n.childFields :=
+      ListRel.refl_of _ fun f hf => FieldRel.refl_of f fun x hx =>
+        ⟨rfl, hch x (mem_children_iff.2 ⟨f, hf, hx⟩)⟩
+    have h := marshalNode_congr hm hrel
+    have hset : setChildFields n n.childFields = n := rfl
+    rw [hset] at h
+    rw [h]
+
+/-! ## the round trip of a tree -/
+
+theorem fuel_arith (a b c : Nat) (hlt : c < b) (hle : ¬ a + 2 ≤ b + 2) : c + 1 ≤ b + 2 ∧ c + 1 ≤ a + 2 := by
+  omega
+
+
+/-- `roundtrip_tree` for a tree of depth at most `d`: what MarshalJSON writes for the tree below `id`, UnmarshalJSON
+    reads back (into any store `st₂`) as a tree equal up to the normal forms … -/
+theorem roundtrip_tree_eq_core (st : Store) (d : Nat) (id : NodeId) (j : Json) (st₂ : Store)
+    (hwf : treeAll nodeOK st d id = true) (hj : marshal st id = .ok j) :
+    ∃ id' st₂', unmarshal j st₂ = .ok (id', st₂') ∧ Ext st₂ st₂' ∧ TreeEq st st₂' (st.size + 2) id id' ∧
+      Full st₂' (id' + 1) id' := by
+  obtain ⟨_, H⟩ := rt_main st (st.size + 2) d id j hwf hj
+  obtain ⟨id', st₂', hu, hext, hte, hfull⟩ := H (Json.size j + 1) st₂ (Nat.le_succ _)
+  exact ⟨id', st₂', hu, hext, hte, hfull⟩
+
+/-- … and which (if "properties" is written in ascending key order everywhere) marshals again to the same JSON -/
+theorem roundtrip_tree_core (st : Store) (d : Nat) (id : NodeId) (j : Json) (st₂ : Store)
+    (hwf : treeAll nodeWF st d id = true) (hj : marshal st id = .ok j) :
+    ∃ id' st₂', unmarshal j st₂ = .ok (id', st₂') ∧ TreeEq st st₂' (st.size + 2) id id' ∧
+      marshal st₂' id' = .ok j := by
+  have hok : treeAll nodeOK st d id = true :=
+    treeAll_imp (fun n hn => by simp only [nodeWF, Bool.and_eq_true] at hn; exact hn.1) hwf
+  obtain ⟨id', st₂', hu, -, hte, hfull⟩ := roundtrip_tree_eq_core st d id j st₂ hok hj
+  refine ⟨id', st₂', hu, hte, ?_⟩
+  have h1 : marshalFuel st₂' (st.size + 2) id' = .ok j := by
+    rw [← TreeEq.marshal_eq (st.size + 2) d (st.size + 2) id id' hwf hte]
+    exact hj
+  have hlt := hfull.lt_size
+  show marshalFuel st₂' (st₂'.size + 2) id' = .ok j
+  by_cases hle : st.size + 2 ≤ st₂'.size + 2
+  · rw [marshalFuel_stable_full (st.size + 2) id' hte.full (st₂'.size + 2) (st.size + 2) hle (Nat.le_refl _)]
+    exact h1
+  · rw [marshalFuel_stable_full (id' + 1) id' hfull (st₂'.size + 2) (st.size + 2)
+      (fuel_arith st.size st₂'.size id' hlt hle).1 (fuel_arith st.size st₂'.size id' hlt hle).2]
+    exact h1
+
+
 end Go
 end JSV
